@@ -25,6 +25,7 @@ func main() {
 		graph    = flag.String("graph", "vta", "call graph: vta|cha")
 		debugFn  = flag.String("debug", "", "pkg:Func — evaluate symbolically and dump returns and heap (development aid)")
 	)
+	lexDbg := flag.String("lex", "", "state function name: evaluate it on the input given as first argument (development aid)")
 	flag.Parse()
 	if pf := os.Getenv("SC_PROF"); pf != "" {
 		f, err := os.Create(pf)
@@ -36,6 +37,25 @@ func main() {
 				f.Close()
 			}()
 		}
+	}
+	if *lexDbg != "" {
+		prog, err := Load(*repo, nil)
+		if err != nil {
+			fmt.Println(err)
+			os.Exit(2)
+		}
+		fn := prog.Func("sml", *lexDbg)
+		pos, _ := strconv.Atoi(flag.Arg(1))
+		var res lexResult
+		var ok bool
+		if flag.NArg() > 3 {
+			st, _ := strconv.Atoi(flag.Arg(3))
+			res, ok = lexRunFrom(prog, fn, flag.Arg(0), st, pos, flag.Arg(2), int64Val(11))
+		} else {
+			res, ok = lexRun(prog, fn, flag.Arg(0), pos, flag.Arg(2))
+		}
+		fmt.Printf("ok=%v end=%d next=%q toks=%q\n", ok, res.end, res.next, res.toks)
+		return
 	}
 	if *debugFn != "" {
 		debugDump(*repo, *debugFn)
